@@ -8,19 +8,22 @@ Import ListNotations.
 
 Section Refine.
   Variables c0 c1 : list nat.
+  (* the micro level may use any configuration of the family; the executable level uses (c0, c1) *)
+  Variable F : list (list nat * list nat).
+  Hypothesis HinF : In (c0, c1) F.
 
   (* s' is reached from s by micro steps that changed node id into n' and sent out *)
   Definition reaches (s : mstate) (id : nat) (n' : nstate) (out : list msg) (s' : mstate) : Prop :=
-    msteps c0 c1 s s' /\ nodes s' id = n' /\ (forall y, y <> id -> nodes s' y = nodes s y) /\
+    msteps F s s' /\ nodes s' id = n' /\ (forall y, y <> id -> nodes s' y = nodes s y) /\
     msgs s' = msgs s ++ out.
 
-  Lemma msteps_trans : forall s1 s2 s3, msteps c0 c1 s1 s2 -> msteps c0 c1 s2 s3 -> msteps c0 c1 s1 s3.
+  Lemma msteps_trans : forall s1 s2 s3, msteps F s1 s2 -> msteps F s2 s3 -> msteps F s1 s3.
   Proof.
     intros s1 s2 s3 H12 H23. induction H23 as [|s3 s4 _ IH Hs]; [exact H12|].
     eapply MS_trans; [exact IH|exact Hs].
   Qed.
 
-  Lemma msteps_one : forall s s', mstep c0 c1 s s' -> msteps c0 c1 s s'.
+  Lemma msteps_one : forall s s', mstep F s s' -> msteps F s s'.
   Proof. intros s s' H. eapply MS_trans; [apply MS_refl|exact H]. Qed.
 
   Lemma reaches_refl : forall s id, reaches s id (nodes s id) [] s.
@@ -40,7 +43,7 @@ Section Refine.
 
   (* a micro step of the shape set_node (+ messages, + ghosts) *)
   Lemma reaches_step : forall s id n' out s',
-    mstep c0 c1 s s' -> nodes s' = upd (nodes s) id n' -> msgs s' = msgs s ++ out ->
+    mstep F s s' -> nodes s' = upd (nodes s) id n' -> msgs s' = msgs s ++ out ->
     reaches s id n' out s'.
   Proof.
     intros s id n' out s' Hs Hn Hm. split; [apply msteps_one; exact Hs|].
@@ -58,11 +61,11 @@ Section Refine.
     unfold leader_ack. destruct (n_match n id <? length (n_log n)) eqn:Elt; [|exists s; apply reaches_refl].
     set (n1 := set_match (upd (n_match n) id (length (n_log n))) n).
     assert (R1 : reaches s id n1 [] (set_node s id n1)).
-    { eapply reaches_step; [apply M_selfack; exact Er|reflexivity|cbn; rewrite app_nil_r; reflexivity]. }
+    { eapply reaches_step; [apply M_selfack; [exact Er|unfold n; lia]|reflexivity|cbn; rewrite app_nil_r; reflexivity]. }
     set (s1 := set_node s id n1) in *.
     assert (Hn1 : nodes s1 id = n1) by (apply (proj1 (proj2 R1))).
     assert (R2 : reaches s1 id (maybe_commit c0 c1 n1) [] (set_node s1 id (maybe_commit c0 c1 (nodes s1 id)))).
-    { eapply reaches_step; [apply M_commit; rewrite Hn1; exact Er|rewrite Hn1; reflexivity|cbn; rewrite app_nil_r; reflexivity]. }
+    { eapply reaches_step; [apply (M_commit F _ id (c0, c1) HinF); rewrite Hn1; exact Er|rewrite Hn1; reflexivity|cbn; rewrite app_nil_r; reflexivity]. }
     eexists. apply (reaches_trans s id n1 [] s1 _ [] _ R1 R2).
   Qed.
 
@@ -74,7 +77,7 @@ Section Refine.
     intros s id Hr. unfold poll_result. destruct (tally c0 c1 (nodes s id)) eqn:Et.
     - exists s. apply reaches_refl.
     - eexists. eapply reaches_step; [apply M_demote|reflexivity|cbn; rewrite app_nil_r; reflexivity].
-    - eexists. eapply reaches_step; [apply (M_win c0 c1 s id Hr Et)|reflexivity|cbn; rewrite app_nil_r; reflexivity].
+    - eexists. eapply reaches_step; [apply (M_win F s id (c0, c1) HinF Hr Et)|reflexivity|cbn; rewrite app_nil_r; reflexivity].
   Qed.
 
   (* ---------------------------------------------------------------- follower-side handlers *)
@@ -165,7 +168,7 @@ Section Refine.
       set (s1 := set_node s id n1) in *.
       assert (Hn1 : nodes s1 id = n1) by (apply (proj1 (proj2 R1))).
       assert (R2 : reaches s1 id (maybe_commit c0 c1 n1) [] (set_node s1 id (maybe_commit c0 c1 (nodes s1 id)))).
-      { eapply reaches_step; [apply M_commit; rewrite Hn1; exact Er|rewrite Hn1; reflexivity|cbn; rewrite app_nil_r; reflexivity]. }
+      { eapply reaches_step; [apply (M_commit F _ id (c0, c1) HinF); rewrite Hn1; exact Er|rewrite Hn1; reflexivity|cbn; rewrite app_nil_r; reflexivity]. }
       eexists. apply (reaches_trans s id n1 [] s1 _ [] _ R1 R2).
     - (* MsgHeartbeat *)
       destruct (n_role n) eqn:Er.
@@ -215,10 +218,10 @@ Section Refine.
       all: assert (Hn1 : nodes s1 id = n1) by (apply (proj1 (proj2 R1))).
       all: destruct (tally c0 c1 n1) eqn:Et; try (exists s1; exact R1).
       all: eexists; eapply (reaches_trans s id n1 [] s1 _ [] _ R1).
-      all: eapply reaches_step; [apply M_win; rewrite Hn1; [reflexivity|exact Et]|rewrite Hn1; reflexivity|cbn; rewrite app_nil_r; reflexivity].
+      all: eapply reaches_step; [apply (M_win F _ id (c0, c1) HinF); rewrite Hn1; [reflexivity|exact Et]|rewrite Hn1; reflexivity|cbn; rewrite app_nil_r; reflexivity].
     - (* propose *)
       unfold propose. fold n. destruct (n_role n) eqn:Er; try (exists s; apply reaches_refl).
-      eexists. eapply reaches_step; [apply (M_propose c0 c1 s id p); exact Er|unfold propose; fold n; rewrite Er; reflexivity|cbn; rewrite app_nil_r; reflexivity].
+      eexists. eapply reaches_step; [apply (M_propose F s id p); exact Er|unfold propose; fold n; rewrite Er; reflexivity|cbn; rewrite app_nil_r; reflexivity].
     - (* recv *)
       destruct (Hev m eq_refl) as [Hm Hto]. unfold step_msg. fold n.
       destruct (n_term n <? m_term m) eqn:E1.
@@ -234,7 +237,7 @@ Section Refine.
         apply Nat.ltb_ge in E1. apply Nat.ltb_ge in E2.
         apply reaches_step_same; [exact Hm|exact Hto|fold n; lia].
     - (* restart *)
-      eexists. eapply reaches_step; [apply (M_demote c0 c1 s id None)|reflexivity|cbn; rewrite app_nil_r; reflexivity].
+      eexists. eapply reaches_step; [apply (M_demote F s id None)|reflexivity|cbn; rewrite app_nil_r; reflexivity].
     - (* tick *)
       exists s. apply reaches_refl.
   Qed.
@@ -256,7 +259,7 @@ Section Refine.
   Definition xsim (s : mstate) (x : xstate) : Prop :=
     (forall y, nodes s y = x_nodes x y) /\ msgs s = x_msgs x.
 
-  Lemma xstep_sim : forall s x x', xsim s x -> xstep c0 c1 x x' -> exists s', msteps c0 c1 s s' /\ xsim s' x'.
+  Lemma xstep_sim : forall s x x', xsim s x -> xstep c0 c1 x x' -> exists s', msteps F s s' /\ xsim s' x'.
   Proof.
     intros s x x' [Hn Hm] Hx. destruct Hx as [id ev extra Hev Hemit].
     rewrite <- (Hn id) in *. rewrite <- Hm in *.
@@ -276,12 +279,12 @@ Section Refine.
     - cbn [x_msgs]. rewrite A4. rewrite app_nil_r. reflexivity.
   Qed.
 
-  Lemma msteps_reachable : forall s s', mreachable c0 c1 s -> msteps c0 c1 s s' -> mreachable c0 c1 s'.
+  Lemma msteps_reachable : forall s s', mreachable F s -> msteps F s s' -> mreachable F s'.
   Proof.
     intros s s' Hr H. induction H as [|s1 s2 _ IH Hs]; [exact Hr|]. eapply MR_step; [exact IH|exact Hs].
   Qed.
 
-  Theorem xreachable_sim : forall x, xreachable c0 c1 x -> exists s, mreachable c0 c1 s /\ xsim s x.
+  Theorem xreachable_sim : forall x, xreachable c0 c1 x -> exists s, mreachable F s /\ xsim s x.
   Proof.
     intros x H. induction H as [|x x' _ [s [Hr Hs]] Hx].
     - exists m_init. split; [apply MR_init|]. split; reflexivity.
